@@ -55,6 +55,13 @@ func (c *SeqCheck) Run(e *Env) (*Outcome, *Evidence, error) {
 	rng := rand.New(rand.NewSource(e.Seed))
 	thorough := e.Tier == "thorough"
 	cov := map[string]any{}
+	phases := map[string]float64{}
+	mark := time.Now()
+	lap := func(name string) {
+		phases[name] += time.Since(mark).Seconds()
+		mark = time.Now()
+	}
+	defer func() { cov["phase_wall_s"] = phases }()
 
 	// 1. ideal model
 	idealTimeout := 10 * time.Minute
@@ -73,6 +80,7 @@ func (c *SeqCheck) Run(e *Env) (*Outcome, *Evidence, error) {
 	if !ideal.NoError {
 		return nil, nil, fatalf("TLC rejects the IDEAL specification for %s (spec error, not a verdict about the code):\n%s", c.Prop, tail(ideal.Out, 60))
 	}
+	lap("tlc_ideal")
 	cov["states"] = ideal.Distinct
 	cov["transitions"] = ideal.Generated
 	cov["ideal_model"] = map[string]any{"model": idealModel.Name, "bounds": idealModel.bounds(), "distinct": ideal.Distinct, "generated": ideal.Generated,
@@ -109,6 +117,7 @@ func (c *SeqCheck) Run(e *Env) (*Outcome, *Evidence, error) {
 		if err != nil {
 			return nil, nil, err
 		}
+		lap("tlc_generate")
 		total := len(states)
 		if !thorough && c.SampleQuick > 0 && gi == 0 {
 			states = sample(states, c.SampleQuick, rng)
@@ -119,6 +128,7 @@ func (c *SeqCheck) Run(e *Env) (*Outcome, *Evidence, error) {
 		}
 		obs = append(obs, o...)
 		histories += ds.Histories
+		lap("drive_e1")
 		key := "e1"
 		if gi > 0 {
 			key = tag
@@ -166,7 +176,9 @@ func (c *SeqCheck) Run(e *Env) (*Outcome, *Evidence, error) {
 	}
 	if c.Sim.Name != "" && simN > 0 {
 		perWorker := (simN + 7) / 8
-		s, err := e.runTLC("sim", "MC_Seq", c.Sim.cfg(tlaSet(loadAsIsDev()), "leaves", nil, nil), 8, 20*time.Minute,
+		simModel := c.Sim
+		simModel.SimSample = 6
+		s, err := e.runTLC("sim", "MC_Seq", simModel.cfg(tlaSet(loadAsIsDev()), "leaves", nil, nil), 8, 20*time.Minute,
 			"-simulate", "num="+strconv.Itoa(perWorker), "-depth", strconv.Itoa(c.Sim.Depth+1), "-seed", strconv.FormatInt(e.Seed, 10))
 		if err != nil {
 			return nil, nil, err
@@ -178,6 +190,7 @@ func (c *SeqCheck) Run(e *Env) (*Outcome, *Evidence, error) {
 		if len(walks) == 0 {
 			return nil, nil, fatalf("simulation produced no walks:\n%s", tail(s.Out, 30))
 		}
+		lap("tlc_simulate")
 		// in simulation mode TLC evaluates the emitting invariant on every
 		// candidate successor: keep one walk per distinct prefix
 		seenPrefix := map[string]bool{}
@@ -233,7 +246,9 @@ func (c *SeqCheck) Run(e *Env) (*Outcome, *Evidence, error) {
 	}
 
 	// 4. judge
+	lap("drive_other")
 	fails, js, err := e.judge(c.Prop, obs)
+	lap("tlc_judge")
 	if err != nil {
 		return nil, nil, err
 	}
